@@ -4,6 +4,7 @@
               hok | hokn | herr | herrn | herre | herren  (the request passes; what the handler returned:
               ok / error / error with empty message; trailing n: the reply value is nil)
      PX J B <block> => <block as received>      PX J R <response> => <response as received>
+     PX NP <key> <address> <moniker> => <PubKeyHex> <NetAddr> <Moniker>   peers.NewPeer on raw strings
    Other PX lines (C, S, T, U) carry the implementation-side comparison only and are ignored here. *)
 open Zutil
 
@@ -27,7 +28,6 @@ let attempt_of (t : string) : BinNums.coq_Z list option Proxy.attempt = match t 
   | "herren" -> Proxy.APass (Proxy.HErr (true, None))
   | _ -> failwith ("bad outcome " ^ t)
 
-let isnull (r : BinNums.coq_Z list option) = match r with None -> true | Some _ -> false
 
 (* ---- canonical text <-> model values ---- *)
 let hexval c = match c with
@@ -35,9 +35,9 @@ let hexval c = match c with
   | _ -> failwith "hex"
 let bytes_of_tok (t : string) : Proxy.bytes =
   if t = "~" then None else begin
-    if Stdlib.String.length t < 1 || t.[0] <> 'x' then failwith ("bad bytes " ^ t);
+    if Stdlib.String.length t < 1 || (Stdlib.String.get t (0)) <> 'x' then failwith ("bad bytes " ^ t);
     let n = (Stdlib.String.length t - 1) / 2 in
-    Some (Stdlib.List.init n (fun i -> z_of_int (16 * hexval t.[1 + 2 * i] + hexval t.[2 + 2 * i])))
+    Some (Stdlib.List.init n (fun i -> z_of_int (16 * hexval (Stdlib.String.get t (1 + 2 * i)) + hexval (Stdlib.String.get t (2 + 2 * i)))))
   end
 let tok_of_bytes (b : Proxy.bytes) : string = match b with
   | None -> "~"
@@ -49,7 +49,7 @@ let str_of_tok (t : string) : Proxy.gstr =
   if body = "" then [] else
     map (fun u ->
         let v = z (Stdlib.String.sub u 1 (Stdlib.String.length u - 1)) in
-        if u.[0] = 'g' then Proxy.Good v else Proxy.Bad v) (Stdlib.String.split_on_char ',' body)
+        if (Stdlib.String.get u (0)) = 'g' then Proxy.Good v else Proxy.Bad v) (Stdlib.String.split_on_char ',' body)
 let tok_of_str (s : Proxy.gstr) : string =
   "s:" ^ Stdlib.String.concat "," (map (fun c -> match c with Proxy.Good v -> "g" ^ zs v | Proxy.Bad v -> "b" ^ zs v) s)
 
@@ -117,7 +117,7 @@ let handle check diff (toks : string list) (raw : string) : bool =
   match toks with
   | "PX" :: "P" :: _client :: _meth :: conn :: rest ->
     let (outs, res) = split_arrow rest in
-    let r = Proxy.call_attempts isnull (conn = "1") (map attempt_of outs) in
+    let r = Proxy.call_attempts Proxy.bytes_null Proxy.bytes_denull (conn = "1") (map attempt_of outs) in
     let m = join [(match r.Proxy.c_result with Some _ -> "ok" | None -> "err");
                   string_of_int (int_of_nat r.Proxy.c_dials); string_of_int (int_of_nat r.Proxy.c_deliveries)] in
     check "PX-P" (if Stdlib.String.length raw > 300 then Stdlib.String.sub raw 0 300 else raw) (join res) m; true
@@ -134,5 +134,9 @@ let handle check diff (toks : string list) (raw : string) : bool =
     (match Proxy.through_cresp (parse_cresp sent) with
      | None -> diff "PX-J" short "decoded" "model decoder rejects its own encoding"
      | Some c -> check "PX-J" short (cresp_str (parse_cresp recv)) (cresp_str c)); true
+  | "PX" :: "NP" :: k :: n :: m :: "=>" :: k' :: n' :: m' :: [] ->
+    let p = Proxy.new_peer (str_of_tok k) (str_of_tok n) (str_of_tok m) in
+    check "PX-NP" raw (join [k'; n'; m'])
+      (join [tok_of_str p.Proxy.p_key; tok_of_str p.Proxy.p_net; tok_of_str p.Proxy.p_mon]); true
   | "PX" :: _ -> true
   | _ -> false
